@@ -611,6 +611,7 @@ class P:
                     if d["members"]:
                         raise ExtractError(f"helper struct `{d['name']}` has stored properties, line {line}")
                     obs["helper_defs"].append(d["name"])
+                    obs.setdefault("helper_inherits", {})[d["name"]] = d.get("inherits", [])
                 else:
                     obs["defs"].append(d)
             elif kw[1] == "enum":
